@@ -8,9 +8,12 @@ LEVEL = "model_checking"
 MANIFEST = dict(
     category="model_checking",
     text="TargetNet.tla models online / target parameter trees as references into a heap of storage cells with actions SupplyTarget, CreateTarget, OnlineStep, SoftUpdate(tau), HardUpdate; TLC checks the Polyak law per leaf, tau=1 / tau=0, the closed form over histories, OnlineUntouched, TargetUntouched and NoSharedStorage, and refutes seven deviations. Every transition is replayed into real modules of 16 types with exact dyadic values in every leaf; targets created by each train_* routine are checked for storage independence. Cadence: every routine that maintains targets is run with small delays on a scripted environment; LoopTrace.tla requires target components to change exactly in the learning segments where the routine's documented rule (every step / every policy-delay / every target-delay interval) makes them due (TargetsOnlyAtUpdatePoints, TargetUpdateMissing, TargetChangeOutsideLearning).",
-    note="dyadic lattice for exact comparison, counted rounding bound for non-dyadic tau; inside float-valued training runs only the cadence (which segments change a target) is decided, the arithmetic law is decided at function level; bounded runs; trusted: digests, recording wrappers, TLC",
+    note="dyadic lattice for exact comparison, counted rounding bound for non-dyadic tau; inside float-valued training runs the cadence (which segments change a target) and, per single update, the relation new = tau*online + (1-tau)*old with the configured tau (also with several gradient steps per environment step) are decided, the exact arithmetic law at function level; bounded runs; trusted: digests, recording wrappers, TLC",
     technique="TLA+ spec + TLC; transition-coverage replay into real modules; trace validation of recorded training runs for the update cadence",
 )
+
+
+GRADIENT_STEP_ROUTINES = ("ddpg", "td3", "td3_lap")  # routines with a gradient_steps parameter and soft target updates
 
 
 def run(rep):
@@ -23,6 +26,17 @@ def run(rep):
                             "target_change_events": sum(1 for t in ruled for e in loop_changed(t) if e)}
     if not ruled:
         raise tlc.MachineryError("no recorded run carries target-cadence rules (vacuous cadence clause)")
+    # the law inside runs is judged per single update with the configured tau - also in runs with more than one gradient
+    # step per environment step, for every routine that has such a parameter
+    multi = {}
+    for t in traces:
+        if t["cfg"].get("gsteps", 1) > 1 and not t.get("error"):
+            m = multi.setdefault(t["cfg"]["routine"], 0)
+            multi[t["cfg"]["routine"]] = m + sum(len(e.get("rel", [])) for e in t["events"])
+    rep.extra["cadence"]["law_judgements_in_runs_with_several_gradient_steps"] = multi
+    missing = [r for r in GRADIENT_STEP_ROUTINES if not multi.get(r)]
+    if missing:
+        raise tlc.MachineryError(f"no in-run target law judgement with gradient_steps > 1 for {missing} (vacuous)")
 
 
 def loop_changed(t):
